@@ -19,6 +19,9 @@ Proof. reflexivity. Qed.
 Lemma theta_guard_ok g b b' : theta_guard g b = Ok b' -> b' = b.
 Proof. unfold theta_guard. destruct (negb (g_has_param g)); [discriminate|]. destruct (g_param_ok g); congruence. Qed.
 
+Lemma Ok_inj {A} (x y : A) : Ok x = Ok y -> x = y.
+Proof. intros H. exact (f_equal (fun r => match r with Ok v => v | _ => x end) H). Qed.
+
 Ltac step_name :=
   match goal with
   | |- context [String.eqb ?a ?s] => destruct (String.eqb_spec a s) as [?E|?N]
@@ -29,7 +32,7 @@ Ltac go k :=
   first
     [ step_name;
       [ let H := fresh "H" in
-        intros H; first [ apply theta_guard_ok in H | injection H as H ]; subst;
+        intros H; first [ apply theta_guard_ok in H; rewrite H | apply Ok_inj in H; rewrite <- H ]; clear H;
         eexists; split; [apply (nth_error_In all_bases k); reflexivity | split; intros; congruence]
       | go (S k) ]
     | idtac ].
@@ -39,7 +42,7 @@ Lemma basis_of_in_all g b : basis_of g = Ok b ->
 Proof.
   unfold basis_of. go 0.
   destruct (g_is_gate g && Nat.eqb (g_nq g) 2); [|discriminate]. destruct (g_matrix_ok g); [|discriminate].
-  intros H. injection H as <-. exists "<kak>". split; [apply (nth_error_In all_bases 20); reflexivity|].
+  intros H. apply Ok_inj in H. subst b. exists "<kak>". split; [apply (nth_error_In all_bases 20); reflexivity|].
   split; intros; congruence.
 Qed.
 
